@@ -5,10 +5,12 @@ import (
 	"encoding/base64"
 	"fmt"
 	"hash/fnv"
+	"io"
 	"math"
 	"strconv"
 	"strings"
 	"sync"
+	"sync/atomic"
 
 	"github.com/transparency-dev/witness/internal/feeder/bastion"
 	"github.com/transparency-dev/witness/internal/witness"
@@ -164,6 +166,98 @@ func c11Distinct() int {
 	return len(c11Seen)
 }
 
+
+// c11Reader delivers a body the way a network peer may: in pieces. The
+// delivery pattern is an environment answer, so it is enumerated: whole (0
+// deviations), one short read at every position (1 deviation), one byte at a
+// time and fixed chunks (every read short).
+type c11Reader struct {
+	b    []byte
+	cuts []int // absolute offsets at which a Read must stop; nil = no stops
+	step int   // > 0: at most step bytes per Read
+}
+
+func (r *c11Reader) Read(p []byte) (int, error) {
+	if len(r.b) == 0 {
+		return 0, io.EOF
+	}
+	n := len(p)
+	if n > len(r.b) {
+		n = len(r.b)
+	}
+	if r.step > 0 && n > r.step {
+		n = r.step
+	}
+	if len(r.cuts) > 0 && n >= r.cuts[0] {
+		n = r.cuts[0]
+		r.cuts = r.cuts[1:]
+		for i := range r.cuts {
+			r.cuts[i] -= n
+		}
+		if n == 0 {
+			return r.Read(p)
+		}
+	} else {
+		for i := range r.cuts {
+			r.cuts[i] -= n
+		}
+	}
+	copy(p, r.b[:n])
+	r.b = r.b[n:]
+	return n, nil
+}
+
+type c11Parse struct {
+	old   uint64
+	proof [][]byte
+	cp    []byte
+	err   error
+	pan   any
+}
+
+func c11ParseVia(r io.Reader) (o c11Parse) {
+	defer func() { o.pan = recover() }()
+	o.old, o.proof, o.cp, o.err = bastion.VerifParseBody(r)
+	return
+}
+
+func (a c11Parse) same(b c11Parse) bool {
+	return a.old == b.old && eqProof(a.proof, b.proof) && bytes.Equal(a.cp, b.cp) && (a.err == nil) == (b.err == nil) && (a.pan == nil) == (b.pan == nil) && (a.proof == nil) == (b.proof == nil) && (a.cp == nil) == (b.cp == nil)
+}
+
+var c11Deliveries atomic.Int64
+
+// c11Delivery: the reading of a body must not depend on how its bytes arrive.
+// Every body is re-read one byte at a time and in 3- and 4096-byte pieces;
+// with splits=true also with one short read at every offset.
+func c11Delivery(run *ev.Run, body []byte, whole c11Parse, splits bool) {
+	chk := func(label string, r io.Reader) {
+		c11Deliveries.Add(1)
+		if got := c11ParseVia(r); !got.same(whole) {
+			run.Report("delivery-dependent-reading delivery="+label[:strings.IndexByte(label+" ", ' ')], fmt.Sprintf("body %q (%d bytes) read whole gives (old=%d, %d hashes, %d checkpoint bytes, err=%v) but delivered %s gives (old=%d, %d hashes, %d bytes, err=%v, panic=%v)", short(string(body)), len(body), whole.old, len(whole.proof), len(whole.cp), whole.err, label, got.old, len(got.proof), len(got.cp), got.err, got.pan),
+				map[string]any{"kind": "parse-body", "body_b64": base64.StdEncoding.EncodeToString(body), "origin": "delivery"})
+		}
+	}
+	chk("bytewise", &c11Reader{b: body, step: 1})
+	chk("chunks-of-3", &c11Reader{b: body, step: 3})
+	if len(body) > 4096 {
+		chk("chunks-of-4096", &c11Reader{b: body, step: 4096})
+		chk("chunks-of-4095", &c11Reader{b: body, step: 4095})
+	}
+	if splits {
+		for i := 1; i < len(body); i++ {
+			chk(fmt.Sprintf("split-at %d", i), &c11Reader{b: body, cuts: []int{i}})
+		}
+		if len(body) <= 600 {
+			for i := 1; i < len(body); i++ {
+				for j := i + 1; j < len(body); j++ {
+					chk(fmt.Sprintf("split-at %d,%d", i, j), &c11Reader{b: body, cuts: []int{i, j}})
+				}
+			}
+		}
+	}
+}
+
 func c11Judge(run *ev.Run, body []byte, origin string) {
 	c11Mark(body)
 	ref := refParse(body)
@@ -180,6 +274,7 @@ func c11Judge(run *ev.Run, body []byte, origin string) {
 		return
 	}
 	run.Hist("reference_classes", ref.Class)
+	c11Delivery(run, body, c11Parse{old: old, proof: proof, cp: cp, err: err}, origin == "delivery-seed")
 	rep := map[string]any{"kind": "parse-body", "body_b64": base64.StdEncoding.EncodeToString(body), "origin": origin}
 	short := string(body)
 	if len(short) > 80 {
@@ -286,6 +381,21 @@ func c11(tier string) int {
 		proofs = append(proofs, p)
 	}
 	lens := []int{1, 2, 3, 31, 32, 33, 63, 64}
+	// ... and of every other boundary hash length (64 x 64 bytes makes the
+	// part before the separator longer than a 4096-byte read buffer).
+	for _, l := range []int{1, 33, 63, 64} {
+		for n := 1; n <= 64; n++ {
+			var p [][]byte
+			for i := 0; i < n; i++ {
+				h := make([]byte, l)
+				for j := range h {
+					h[j] = byte(i*11 + j*5 + n + l)
+				}
+				p = append(p, h)
+			}
+			proofs = append(proofs, p)
+		}
+	}
 	fills := []func(n int) []byte{
 		func(n int) []byte { return bytes.Repeat([]byte{0x00}, n) },
 		func(n int) []byte { return bytes.Repeat([]byte{0xff}, n) },
@@ -353,6 +463,7 @@ func c11(tier string) int {
 		gold, gp, gcp, err := bastion.VerifParseBody(bytes.NewReader(body))
 		evals++
 		c11Mark(body)
+		c11Delivery(run, body, c11Parse{old: gold, proof: gp, cp: gcp, err: err}, false)
 		if err != nil || gold != old || !eqProof(gp, p) || !bytes.Equal(gcp, cp) {
 			kind := "refused"
 			if err == nil {
@@ -443,6 +554,10 @@ func c11(tier string) int {
 	// ---- 1-edit neighbourhood of three valid bodies.
 	seeds := [][]byte{c10Body(4, u.Main.Proof(4, 6), real4), c10Body(0, nil, realExt), c10Body(1<<40, proofs[3], []byte("x\n")), c10Body(10, proofs[1], []byte("x\n"))}
 	var nb int64
+	for _, s := range append(append([][]byte{}, seeds...), c10Body(1<<63, proofs[65+4*64-1], realExt), c10Body(3, proofs[64], real4)) {
+		c11Judge(run, s, "delivery-seed")
+		nb++
+	}
 	for _, s := range seeds {
 		for _, m := range editNeighbourhood(s, []string{"old ", "\n", "=", "QUJD\n", " ", "5", "\r", "-", "\x00", "x", "0x", "_", "+", "0b", "0o", "e1", ".", "\t"}) {
 			c11Judge(run, m, "1-edit")
@@ -451,10 +566,11 @@ func c11(tier string) int {
 	}
 	run.Set("neighbourhood_bodies", nb)
 	evals += nb
+	run.Set("delivery_patterns_replayed", c11Deliveries.Load())
 	run.Set("evaluations", evals)
 	run.Set("distinct_nontrivial", c11Distinct())
 	run.Set("exhaustive", true)
-	run.Set("rule", fmt.Sprintf("generator side: old sizes {0,1,9,10,99,2^32-1,2^32,2^63-1,2^63,2^64-1} x proofs (every length 0..64 of 32-byte hashes; all lists of <= %d hashes with lengths {1,2,3,31,32,33,63,64} x 4 boundary fillings) x checkpoint bytes (all strings of <= 4 chunks over {x, LF, LFLF, CRLF, 0xff, a signature-like line, empty} + real checkpoints), written by the harness writer and in the shape of cmd/feedbastion; parseBody must return exactly what was written; Proof.Marshal/Unmarshal over every proof list incl. the empty one. Refusal side: ALL strings of <= %d tokens over a 12-token alphabet and the complete 1-edit neighbourhood (every prefix, single-byte deletion, insertion of 18 tokens at every position, every single-bit flip) of four valid bodies, judged by a reference parser with classes accept / must-refuse (no well-formed old-size line, proof line not base64, ends before the blank separator) / unspecified; refusals must return zero values. distinct_nontrivial = number of distinct bodies/lists evaluated (token strings that concatenate to the same bytes are counted once)", maxList, L))
+	run.Set("rule", fmt.Sprintf("generator side: old sizes {0,1,9,10,99,2^32-1,2^32,2^63-1,2^63,2^64-1} x proofs (every length 0..64 of 1-, 32-, 33-, 63- and 64-byte hashes; all lists of <= %d hashes with lengths {1,2,3,31,32,33,63,64} x 4 boundary fillings) x checkpoint bytes (all strings of <= 4 chunks over {x, LF, LFLF, CRLF, 0xff, a signature-like line, empty} + real checkpoints), written by the harness writer and in the shape of cmd/feedbastion; parseBody must return exactly what was written; Proof.Marshal/Unmarshal over every proof list incl. the empty one. Refusal side: ALL strings of <= %d tokens over a 12-token alphabet and the complete 1-edit neighbourhood (every prefix, single-byte deletion, insertion of 18 tokens at every position, every single-bit flip) of four valid bodies, judged by a reference parser with classes accept / must-refuse (no well-formed old-size line, proof line not base64, ends before the blank separator) / unspecified; refusals must return zero values. Delivery: every body above is also read one byte at a time and in 3-byte pieces (4095/4096-byte pieces when longer than 4096 bytes), and six valid bodies (incl. 64 x 64-byte and 64 x 32-byte proofs) additionally with one short read at every offset and, when <= 600 bytes, two short reads at every pair of offsets; the reading must not depend on it. distinct_nontrivial = number of distinct bodies/lists evaluated (token strings that concatenate to the same bytes are counted once)", maxList, L))
 	run.Assumption("leniencies the property does not name (CRLF line ends, leading zeros, non-canonical base64 padding bits, lines longer than 4096 bytes) are classified 'unspecified': executed, required to return zero values on refusal, otherwise not judged")
 	return run.Finish()
 }
